@@ -264,6 +264,19 @@ pub fn scenario(stream: &str, r: &mut Rng, idx: u64) -> Vec<String> {
                     }
                 }
                 out.push(format!("open {}", hex(&b)));
+                // the same bytes opened through a source that answers every read from a schedule
+                let mut sch = Vec::new();
+                for _ in 0..r.below(14) {
+                    sch.push(match r.below(8) {
+                        0 | 1 => "i".to_string(),
+                        2 => format!("f{}", 4000 + r.below(100)),
+                        _ => format!("s{}", r.below(10)),
+                    });
+                }
+                out.push(format!("openio {} {}", hex(&b), if sch.is_empty() { "-".to_string() } else { sch.join(",") }));
+                if r.chance(1, 4) {
+                    out.push(format!("openfault {} {} {}", hex(&b), r.range(1, 2), 4100 + r.below(100)));
+                }
             }
         }
         "trunc" | "truncall" => {
@@ -417,6 +430,52 @@ pub fn scenario(stream: &str, r: &mut Rng, idx: u64) -> Vec<String> {
                     }
                 };
                 out.push(format!("c 0 {}", op));
+            }
+        }
+        "edge" => {
+            // a fixed corpus of tiny inputs (the shapes random generation almost never draws),
+            // each under a random configuration: round trip, scans, seeks, iterators
+            let corpus: Vec<Vec<(&[u8], &[u8])>> = vec![
+                vec![(b"", b"")],
+                vec![(b"", b"v")],
+                vec![(b"k", b"")],
+                vec![(b"", b""), (b"\x00", b"")],
+                vec![(b"", b"x"), (b"a", b""), (b"a\x00", b"y")],
+                vec![(b"\xff", b""), (b"\xff\xff", b""), (b"\xff\xff\xff", b"z")],
+                vec![(b"a", b"1"), (b"ab", b"2"), (b"abc", b"3"), (b"b", b"")],
+                vec![(b"\x00", b"\x00")],
+            ];
+            let es: Vec<Entry> = corpus[(idx % corpus.len() as u64) as usize].iter().map(|(k, v)| (k.to_vec(), v.to_vec())).collect();
+            let o = CfgOpts { all_codecs: true, deep: r.chance(1, 2), extreme_levels: false };
+            out.push(gen_cfg(r, &o));
+            out.push("wnew".into());
+            ins_lines(&mut out, &es);
+            out.push("finish".into());
+            out.push("load".into());
+            out.push("interop".into());
+            out.push("cnew 0".into());
+            for _ in 0..es.len() + 2 {
+                out.push("c 0 next".into());
+            }
+            out.push("c 0 reset".into());
+            for _ in 0..es.len() + 2 {
+                out.push("c 0 prev".into());
+            }
+            let mut probes: Vec<Vec<u8>> = vec![Vec::new(), vec![0], vec![0xff], b"a".to_vec(), b"ab\x00".to_vec()];
+            probes.extend(es.iter().map(|e| e.0.clone()));
+            for q in &probes {
+                for op in ["ge", "le", "eq"] {
+                    out.push(if r.chance(1, 2) { "c 0 reset".to_string() } else { "c 0 current".to_string() });
+                    out.push(format!("c 0 {} {}", op, hex(q)));
+                }
+            }
+            for (i, q) in probes.iter().enumerate() {
+                out.push(format!("prefix {} {} {}", i, hex(q), if i % 2 == 0 { "fwd" } else { "rev" }));
+                out.push(format!("itall {}", i));
+                out.push(format!("range {} I{} U {}", 100 + i, hex(q).replace('-', ""), if i % 2 == 0 { "rev" } else { "fwd" }));
+                out.push(format!("itall {}", 100 + i));
+                out.push(format!("range {} U E{} fwd", 200 + i, hex(q).replace('-', "")));
+                out.push(format!("itall {}", 200 + i));
             }
         }
         "seek" => {
@@ -751,7 +810,7 @@ pub fn fault_scenarios(r: &mut Rng, idx: u64, out: &mut Vec<String>) {
                 }
                 out.push("sfinish stream".into());
             }
-            for k in (1..400).step_by(3) {
+            for k in 1..400 {
                 out.push(format!("S fault-co-{}-{}", idx, k));
                 out.push("scfg thr=0 minmem=128 init=32 realloc=1 maxchunks=3 stable=1 par=0 codec=0 bs=1024".into());
                 out.push(format!("sfault op:{}:{}", k, tag));
@@ -763,7 +822,7 @@ pub fn fault_scenarios(r: &mut Rng, idx: u64, out: &mut Vec<String>) {
             }
             // chunks spanning several blocks: faults while a merge crosses a block boundary
             let big: Vec<(String, String)> = (0..60u32).map(|i| (hex(&(i * 7 % 60).to_be_bytes()), hex(&r.bytes(150)))).collect();
-            for k in (1..260).step_by(2) {
+            for k in 1..260 {
                 out.push(format!("S fault-cb-{}-{}", idx, k));
                 out.push("scfg thr=0 minmem=4096 init=4096 realloc=0 maxchunks=2 stable=1 par=0 codec=0 bs=1024".into());
                 out.push(format!("sfault op:{}:{}", k, tag));
